@@ -1,13 +1,19 @@
 """Translator: every class of nixio/*.py  ->  NixModel/Generated/Setters.lean   (used by C19)
 
-For every method / property setter of every class the table records whether its body contains the
+For every method / property setter of every class the table records, path by path, where the
 auto-update idiom
 
     if self.file.auto_update_timestamps:
         self.force_updated_at()
 
 (or the inline variant of feature.py: `time = util.now_int(); self._h5group.set_attr("updated_at",
-util.time_to_str(time))`), on which object it acts, and whether it is the last effectful statement.
+util.time_to_str(time))`) runs: the *outcomes* of a member are all pairs (exit, touch) such that some
+path through the body reaches that exit (`returns`: a `return` or the end of the body; `raises`: a
+`raise` or a statement that may raise) after the idiom has run on `touch` (none / self / parent).  An
+early `return` that skips the idiom, an idiom under a condition, a statement after the idiom that can
+still refuse the call: each shows up as an outcome, and the theorems of C19 quantify over them.
+Methods run through `self` (`self.delete_values()`, `self.x = v`) contribute their own outcomes
+(summaries iterated to a fixpoint over Python's MRO).
 The shapes of `force_created_at` / `force_updated_at` are verified.  The method resolution order of
 every class is rendered as well, so that the Lean model resolves `Tag.definition` to `Entity.definition`
 exactly as Python does.  Parsed with `ast`, never imported.  Anything that mentions the time stamp
@@ -139,34 +145,20 @@ def _check_force_shape(cls, fn, attr):
         raise ExtractError("%s: does not write util.time_to_str(time) to %r" % (where, attr))
 
 
-def _analyse_function(cls, fn, selftouch):
-    """-> (touch, last) for one method; `selftouch` = names of methods of the same class already known to touch
-    self on every normal path (used for `self.m(); return` before an early return)"""
+def _walk_local(node):
+    """ast.walk that does not descend into nested function / class definitions and lambdas"""
+    todo = [node]
+    while todo:
+        n = todo.pop()
+        yield n
+        for ch in ast.iter_child_nodes(n):
+            if not isinstance(ch, (ast.FunctionDef, ast.AsyncFunctionDef, ast.ClassDef, ast.Lambda)):
+                todo.append(ch)
+
+
+def _scan_machinery(cls, fn, body, idiom_nodes):
+    """ExtractError when the time stamp machinery is used outside the recognised idiom"""
     where = "%s.%s" % (cls, fn.name)
-    body = _strip_doc(fn.body)
-    idioms = []           # (If node, target)
-
-    class V(ast.NodeVisitor):
-        def __init__(self):
-            self.stack = []
-
-        def generic_visit(self, node):
-            self.stack.append(node)
-            super().generic_visit(node)
-            self.stack.pop()
-
-        def visit_If(self, node):
-            if _is_auto_test(node.test):
-                idioms.append((node, _idiom_target(node, where), list(self.stack)))
-                return  # do not descend
-            self.generic_visit(node)
-
-    v = V()
-    for st in body:
-        v.visit(st)
-
-    # anything else that mentions the machinery?
-    idiom_nodes = set(id(i[0]) for i in idioms)
 
     def scan(node):
         if id(node) in idiom_nodes:
@@ -184,48 +176,156 @@ def _analyse_function(cls, fn, selftouch):
         for st in body:
             scan(st)
 
-    if not idioms:
-        return "none", False
-    targets = set(t for _, t, _ in idioms)
-    if len(targets) != 1:
-        raise ExtractError("%s: idiom acts on different objects" % where)
-    target = targets.pop()
-    top = [i for i in idioms if not i[2]]
-    if not top:
-        raise ExtractError("%s: the idiom only occurs conditionally (nested in %s)"
-                           % (where, type(idioms[0][2][-1]).__name__))
-    # position of the last top-level idiom
-    idx = max(k for k, st in enumerate(body) if any(st is i[0] for i in top))
-    rest = body[idx + 1:]
-    last = all(isinstance(st, ast.Return) and (st.value is None or isinstance(st.value, (ast.Name, ast.Constant)))
-               for st in rest)
-    # every early `return` before the idiom must itself be preceded by a touch
-    def check_block(stmts):
-        for k, st in enumerate(stmts):
-            if isinstance(st, ast.Return):
-                prev = stmts[k - 1] if k > 0 else None
-                ok = False
-                if prev is not None:
-                    if isinstance(prev, ast.If) and id(prev) in idiom_nodes:
-                        ok = True
-                    elif (isinstance(prev, ast.Expr) and isinstance(prev.value, ast.Call)
-                          and isinstance(prev.value.func, ast.Attribute)
-                          and isinstance(prev.value.func.value, ast.Name) and prev.value.func.value.id == "self"
-                          and selftouch is not None and prev.value.func.attr in selftouch
-                          and target == "self"):
-                        ok = True
-                if not ok and selftouch is not None:
-                    raise ExtractError("%s: a `return` before the idiom skips the time stamp update" % where)
-            for fld in ("body", "orelse", "finalbody"):
-                sub = getattr(st, fld, None)
-                if isinstance(sub, list) and not (isinstance(st, ast.If) and id(st) in idiom_nodes) \
-                        and not isinstance(st, (ast.FunctionDef, ast.ClassDef, ast.Lambda)):
-                    check_block(sub)
-            if isinstance(st, ast.Try):
-                for h in st.handlers:
-                    check_block(h.body)
-    check_block(body[:idx])
-    return target, last
+
+def _may_raise(node):
+    """can evaluating this statement / expression raise: anything that calls, subscripts, deletes or computes"""
+    if node is None:
+        return False
+    for n in _walk_local(node):
+        if isinstance(n, (ast.Call, ast.Subscript, ast.Delete, ast.BinOp, ast.Assert)):
+            return True
+    return False
+
+
+class _Flow:
+    """Path-sensitive analysis of one method: which exits (`return` / falling off the end, `raise` / a statement that
+    may raise) can be reached in which *touch state* (has the auto-update idiom run on this path, and on which
+    object).  The result over-approximates the real paths (conditions are not interpreted, every statement that
+    calls something is a possible raise point), so a statement "for every outcome ..." about it holds for the code.
+
+    summaries: (name, is_setter) -> (touches on normal return, touches when it raises) of the methods reachable as
+    `self.name(...)` / `self.name = ...` through the class's MRO."""
+
+    def __init__(self, cls, fn, lookup):
+        self.where = "%s.%s" % (cls, fn.name)
+        self.lookup = lookup
+        self.outcomes = set()
+        self.idiom_nodes = set()
+        self.raise_states = set()
+        self.loop_exits = []
+
+    def comb(self, s, t):
+        if t == "none":
+            return s
+        if s != "none" and s != t:
+            raise ExtractError("%s: the idiom acts on different objects on one path" % self.where)
+        return t
+
+    def effects(self, node, S):
+        """calls / assignments through `self` that run another method of the object, then the raise point"""
+        if node is None:
+            return S
+        callees = []
+        for n in _walk_local(node):
+            if isinstance(n, ast.Call) and isinstance(n.func, ast.Attribute) and isinstance(n.func.value, ast.Name) \
+                    and n.func.value.id == "self":
+                callees.append((n.func.attr, False))
+            if isinstance(n, (ast.Assign, ast.AugAssign)):
+                for t in (n.targets if isinstance(n, ast.Assign) else [n.target]):
+                    if isinstance(t, ast.Attribute) and isinstance(t.value, ast.Name) and t.value.id == "self":
+                        callees.append((t.attr, True))
+        if _may_raise(node):
+            for s in S:
+                self.raise_at(s)
+        for key in callees:
+            summ = self.lookup(key)
+            if summ is None:
+                continue
+            normal, raising = summ
+            for s in S:
+                for t in raising:
+                    self.raise_at(self.comb(s, t))
+            S = set(self.comb(s, t) for s in S for t in normal)
+        return S
+
+    def raise_at(self, s):
+        self.outcomes.add(("raises", s))
+        self.raise_states.add(s)
+
+    def block(self, stmts, S):
+        for st in stmts:
+            if not S:
+                break
+            S = self.stmt(st, S)
+        return S
+
+    def stmt(self, st, S):
+        if isinstance(st, ast.If) and _is_auto_test(st.test):
+            tgt = _idiom_target(st, self.where)
+            self.idiom_nodes.add(id(st))
+            return set(self.comb(s, tgt) for s in S)
+        if isinstance(st, (ast.FunctionDef, ast.AsyncFunctionDef, ast.ClassDef, ast.Pass, ast.Global, ast.Nonlocal,
+                           ast.Import, ast.ImportFrom)):
+            return S
+        if isinstance(st, ast.Return):
+            S = self.effects(st.value, S)
+            for s in S:
+                self.outcomes.add(("returns", s))
+            return set()
+        if isinstance(st, ast.Raise):
+            S = self.effects(st.exc, S)
+            for s in S:
+                self.raise_at(s)
+            return set()
+        if isinstance(st, ast.If):
+            S = self.effects(st.test, S)
+            return self.block(st.body, set(S)) | self.block(st.orelse, set(S))
+        if isinstance(st, (ast.For, ast.AsyncFor, ast.While)):
+            S = self.effects(st.iter if not isinstance(st, ast.While) else st.test, S)
+            out = set(S)
+            self.loop_exits.append(set())
+            for _ in range(5):
+                nxt = self.block(st.body, set(out)) | self.loop_exits[-1]
+                if nxt <= out:
+                    break
+                out |= nxt
+            self.loop_exits.pop()
+            return out | self.block(st.orelse, set(out))
+        if isinstance(st, (ast.Break, ast.Continue)):
+            if self.loop_exits:
+                self.loop_exits[-1] |= S
+            return set()
+        if isinstance(st, ast.Try):
+            before = set(self.raise_states)
+            self.raise_states = set()
+            body_out = self.block(st.body, set(S))
+            caught = S | body_out | self.raise_states
+            self.raise_states |= before
+            h_out = set()
+            for h in st.handlers:
+                h_out |= self.block(h.body, set(caught))
+            res = (self.block(st.orelse, set(body_out)) if st.orelse else body_out) | h_out
+            if st.finalbody:
+                res = self.block(st.finalbody, res | caught)
+            return res
+        if isinstance(st, (ast.With, ast.AsyncWith)):
+            for it in st.items:
+                S = self.effects(it.context_expr, S)
+            return self.block(st.body, S)
+        if isinstance(st, ast.Match):
+            S = self.effects(st.subject, S)
+            out = set(S)
+            for c in st.cases:
+                out |= self.block(c.body, set(S))
+            return out
+        # simple statements
+        return self.effects(st, S)
+
+
+def _analyse_function(cls, fn, lookup):
+    """-> sorted list of outcomes (exit, touch) of one method"""
+    body = _strip_doc(fn.body)
+    fl = _Flow(cls, fn, lookup)
+    end = fl.block(body, {"none"})
+    for s in end:
+        fl.outcomes.add(("returns", s))
+    _scan_machinery(cls, fn, body, fl.idiom_nodes)
+    # an auto-update test anywhere the flow did not reach (dead code after a return) is still a use of the machinery
+    for n in _walk_local(fn):
+        if isinstance(n, ast.If) and _is_auto_test(n.test) and id(n) not in fl.idiom_nodes:
+            raise ExtractError("%s.%s: unreachable auto-update idiom" % (cls, fn.name))
+    order = {"returns": 0, "raises": 1, "none": 0, "self": 1, "parent": 2}
+    return sorted(fl.outcomes, key=lambda o: (order[o[0]], order[o[1]]))
 
 
 def _c3(name, bases, memo):
@@ -277,13 +377,19 @@ def scan_repo(repo):
             raise ExtractError("class %s not found" % need)
     for c in classes:
         classes[c] = [b for b in classes[c] if b in classes]
-    members = []
-    for c in order:
-        # two passes so that `self.m(); return` can refer to methods defined later in the class
-        selftouch = None      # first pass: lenient (collect the candidates), then strict
+    memo = {}
+    mro = {c: _c3(c, classes, memo) for c in order}
+    # summaries of the methods of every class, iterated to a fixpoint (a method may run another one through `self`)
+    summ = {}      # (cls, name, is_setter) -> (frozenset normal touches, frozenset raising touches)
+
+    def analyse_all():
         results = {}
-        for _round in range(2):
-            results = {}
+        for c in order:
+            def lookup(key, c=c):
+                for c2 in mro[c]:
+                    if (c2,) + key in summ:
+                        return summ[(c2,) + key]
+                return None
             for m in fns[c]:
                 decs = [ast.unparse(d) for d in m.decorator_list]
                 if "property" in decs:
@@ -294,23 +400,37 @@ def scan_repo(repo):
                 if m.name in FORCE and not is_setter:
                     _check_force_shape(c, m, FORCE[m.name])
                     kind = "forceCreated" if m.name == "force_created_at" else "forceUpdated"
-                    results[(m.name, is_setter)] = (kind, "none", False)
+                    results[(c, m.name, False)] = (kind, [])
                     continue
-                touch, last = _analyse_function(c, m, selftouch)
+                outs = _analyse_function(c, m, lookup)
                 if any(d.endswith(".deleter") for d in decs):
-                    results[(m.name + "__deleter", False)] = ("method", touch, last)
+                    results[(c, m.name + "__deleter", False)] = ("method", outs)
                     continue
-                results[(m.name, is_setter)] = ("setter" if is_setter else "method", touch, last)
-            new = set(n for (n, s), (k, t, l) in results.items() if t == "self" and not s)
-            selftouch = new
-        seen = set()
-        for (n, s), (k, t, l) in results.items():
-            if n in seen:
-                raise ExtractError("%s.%s defined twice" % (c, n))
-            seen.add(n)
-            members.append((c, n, k, t, l))
-    memo = {}
-    mro = {c: _c3(c, classes, memo) for c in order}
+                if (c, m.name, is_setter) in results:
+                    raise ExtractError("%s.%s defined twice" % (c, m.name))
+                results[(c, m.name, is_setter)] = ("setter" if is_setter else "method", outs)
+        return results
+
+    results = {}
+    for _round in range(6):
+        results = analyse_all()
+        new = {}
+        for key, (kind, outs) in results.items():
+            if kind in ("setter", "method"):
+                new[key] = (frozenset(t for e, t in outs if e == "returns"),
+                            frozenset(t for e, t in outs if e == "raises"))
+        if new == summ:
+            break
+        summ = new
+    else:
+        raise ExtractError("the method summaries do not stabilise")
+    members = []
+    seen = set()
+    for (c, n, s), (k, outs) in results.items():
+        if (c, n) in seen:
+            raise ExtractError("%s.%s defined twice" % (c, n))
+        seen.add((c, n))
+        members.append((c, n, k, outs))
     return classes, order, members, mro
 
 
@@ -321,7 +441,7 @@ def _mem_id(n):
 def extract(repo):
     classes, order, members, mro = scan_repo(repo)
     memnames = []
-    for _, n, _, _, _ in members:
+    for _, n, _, _ in members:
         if n not in memnames:
             memnames.append(n)
     for n in memnames + order:
@@ -349,19 +469,30 @@ def extract(repo):
     L.append("inductive Touch where | none | self | parent")
     L.append("  deriving DecidableEq, Repr")
     L.append("")
+    L.append("/-- how a path through a method ends: `return` / falling off the end, or an exception (an explicit")
+    L.append("`raise`, or a statement that calls, subscripts or deletes something and may therefore raise) -/")
+    L.append("inductive Exit where | returns | raises")
+    L.append("  deriving DecidableEq, Repr")
+    L.append("/-- one way a call can end: the exit and whether the idiom ran on that path before it (with the switch on,")
+    L.append("`touch` names the object whose `updated_at` has been written when the exit is reached).  The list of a")
+    L.append("member over-approximates the paths of the source: conditions are not interpreted. -/")
+    L.append("structure Outcome where")
+    L.append("  exit : Exit")
+    L.append("  touch : Touch")
+    L.append("  deriving DecidableEq, Repr")
+    L.append("")
     L.append("structure Member where")
     L.append("  cls : Cls")
     L.append("  mem : Mem")
     L.append("  kind : MKind")
-    L.append("  touch : Touch")
-    L.append("  /-- the idiom is the last effectful statement (nothing after it can refuse the call) -/")
-    L.append("  last : Bool")
+    L.append("  /-- every (exit, touch state) some path through the body can reach -/")
+    L.append("  outcomes : List Outcome")
     L.append("  deriving DecidableEq, Repr")
     L.append("")
     L.append("def members : List Member := [")
     rows = []
-    for c, n, k, t, l in members:
-        rows.append("  ⟨.%s, .%s, .%s, .%s, %s⟩" % (c, _mem_id(n), k, t, lean_bool(l)))
+    for c, n, k, outs in members:
+        rows.append("  ⟨.%s, .%s, .%s, [%s]⟩" % (c, _mem_id(n), k, ", ".join("⟨.%s, .%s⟩" % o for o in outs)))
     L.append(",\n".join(rows))
     L.append("]")
     L.append("")
